@@ -124,7 +124,11 @@ def to_term(v) -> sp.Basic:
 
 
 def _sorted_args(args: Iterable[sp.Basic]) -> List[sp.Basic]:
-    return sorted(args, key=sp.default_sort_key)
+    args = list(args)
+    try:
+        return sorted(args, key=sp.default_sort_key)
+    except TypeError:       # NaN inside a sort key
+        return sorted(args, key=lambda a: sp.srepr(a))
 
 
 def AND(*args) -> sp.Basic:
